@@ -1458,13 +1458,17 @@ impl<'a, 'b, W: Write> Serializer for &'a mut YamlSerializer<'b, W> {
     ) -> Result<()> {
         // Flow hints & block-string hints:
         match name {
-            NAME_FLOW_SEQ => {
-                self.pending_flow = Some(PendingFlow::AnySeq);
-                return value.serialize(self);
-            }
-            NAME_FLOW_MAP => {
-                self.pending_flow = Some(PendingFlow::AnyMap);
-                return value.serialize(self);
+            NAME_FLOW_SEQ | NAME_FLOW_MAP => {
+                self.pending_flow = Some(if name == NAME_FLOW_SEQ {
+                    PendingFlow::AnySeq
+                } else {
+                    PendingFlow::AnyMap
+                });
+                let result = value.serialize(&mut *self);
+                // The hint is for a collection inside the wrapped value. If there was none to
+                // take it, it must not reach whatever collection is written next.
+                self.pending_flow = None;
+                return result;
             }
             NAME_LIT_STR => {
                 // Always use literal block style for LitStr/LitString wrappers.
